@@ -39,13 +39,13 @@ META = {
                 text="All register/change/cancel/re-register/RST/delete/close operation sequences up to depth 4/6 by 1-2 clients and a raw observer on 2 resources, each under all schedules with <=1/2 deviations; a per-observer automaton checks tokens, strictly increasing Observe values (RFC 7641 serial order), a CON at least every sixth notification, eventual notification of the last state, silence after deregistration, single entry on re-registration, session kept alive.",
                 note="Bounds per evidence."),
     "C12": dict(engine="vx-netsim", technique="exhaustive enumeration of session-lifecycle operation sequences (UDP and raw TCP peers, observations, async, references, disconnects, time jumps) with teardown after every prefix against a reference model of events and reference holders, ASan/LSan and allocator counters",
-                text="All sequences up to depth 5/7 of requests from distinct/identical peers, observe, async, application reference/release, time jumps across the session timeout and context teardown; session identity per peer tuple, one NEW/DEL event pair per server session, no reclamation while referenced, idle reclamation and eviction, and a leak/double-free/use-after-free-clean teardown (ASan, LSan, per-tag allocation counters).",
+                text="All sequences up to depth 5/7 of requests from distinct/identical peers, observe, async, application reference/release, time jumps across the session timeout and context teardown; session identity per peer tuple, one NEW/DEL event pair per server session, no reclamation while referenced, idle reclamation and eviction, and a leak/double-free/use-after-free-clean teardown (ASan, LSan, per-tag allocation counters). Stage c12cli: two client sessions of one context, all sequences (depth 6/7) of send CON/NON, application release/reference, peer answer/reset, retransmission timer and give-up followed by teardown; a session must never be freed while the application or a queued Confirmable holds it and exactly once in the end.",
                 note="Bounds per evidence (old alphabet depth 5/6, enlarged alphabet with TCP peer / several observations / disconnect depth 4/5); peers <= 4 + one TCP peer."),
     "C13": dict(engine="vx-sched", technique="preemption-bounded exhaustive exploration of thread interleavings under a cooperative scheduler over the real lock operations, scheduling points inside every application callback",
                 text="Real pthreads serialised by a futex hand-off scheduler with scheduling points at every global-lock operation and I/O wait; all schedules with <=2/3 preemptions of 2-3 API threads plus an I/O thread, callbacks re-entering the API; invariants: lock ownership on entry to every *_lkd function (via -finstrument-functions), no deadlock/livelock, lock free at the end; the library is compiled twice, with the configuration headers each of the repository's two build systems emits on the current tree (CMake configure: plain lock; autogen.sh + ./configure defaults: the recursive-check lock variant), and the whole exploration runs on both.",
                 note="Sequential consistency assumed; scheduling points at lock operations, inside callbacks, I/O waits and a sleep operation; unsynchronised accesses inside correctly locked code are not looked for (the TSan pass of the design was not built); all callback kinds incl. ping/pong/cache/release/persistence call-outs re-enter the API."),
     "C14": dict(engine="vx-inproc", technique="exhaustive product enumeration and exhaustive enumeration of exchange sequences (Observe register/cancel on two tokens) differential against an independent RFC 8613 implementation, exhaustive single-bit tampering",
-                text="Full product of message shapes x security contexts x partial IVs: libcoap's protected output must equal an independent RFC 8613 implementation (OpenSSL AES-CCM/HKDF, validated on the Appendix C vectors) byte for byte and unprotect to the original; every single-bit flip and truncation of the protected part and every one-parameter context change must be rejected.",
+                text="Full product of message shapes x security contexts x partial IVs: libcoap's protected output must equal an independent RFC 8613 implementation (OpenSSL AES-CCM/HKDF, validated on the Appendix C vectors) byte for byte and unprotect to the original; every single-bit flip and truncation of the protected part and every one-parameter context change must be rejected. Stage c14seq: all histories (depth 5/6) of GET / Observe register / cancel on two tokens and resource changes against a real libcoap OSCORE server, and (depth 4/5) the same with tampered, replayed and unknown-kid datagrams in between: every response and notification must verify under the binding of the right request, rejected datagrams never reach a handler.",
                 note="Trusted: OpenSSL primitives, ref/refoscore.c validated by RFC 8613 Appendix C vectors."),
     "C15": dict(engine="vx-inproc", technique="explicit-state BFS over delivery histories on a real recipient context against a set-based replay-window reference; exhaustive crash-point enumeration on the sender",
                 text="All histories up to depth 4/6 over fresh(gap)/late/replay/forge deliveries to a real OSCORE recipient context for several window sizes and B.1.2 on/off: at-most-once acceptance, forgeries leave state and all depth-1 continuations unchanged; sender: every crash point between save callbacks for several ssn_freq, no partial IV reuse across restarts.",
